@@ -628,10 +628,11 @@ func writeEvidence(prop, tier string, seed uint64, b *build, bt *batch, tc tierC
 		"workers":                 tc.workers,
 		"stalled_worker_restarts": bt.stalled,
 		"instrumentation": map[string]any{
-			"lock_yield_sites": b.overlay.LockSites,
-			"sync_yield_sites": b.overlay.SyncSites,
-			"lru_size_sites":   b.overlay.SizeSites,
-			"files_rewritten":  b.overlay.Files,
+			"lock_yield_sites":  b.overlay.LockSites,
+			"sync_yield_sites":  b.overlay.SyncSites,
+			"blocking_op_sites": b.overlay.BlockSites,
+			"lru_size_sites":    b.overlay.SizeSites,
+			"files_rewritten":   b.overlay.Files,
 		},
 		"components":     componentsFor(prop),
 		"known_findings": knownHit,
@@ -1094,6 +1095,11 @@ func main() {
 		os.Exit(cmdReplay(*file, *repo))
 	case "determinism":
 		os.Exit(cmdDeterminism(*prop, seed, *n, *repo))
+	case "build":
+		// debugging aid: build the instrumented worker and keep it
+		b := buildWorker(*repo)
+		fmt.Println(b.worker)
+		os.Exit(0)
 	}
 	fatal2("unknown subcommand %q", sub)
 }
